@@ -29,7 +29,10 @@ REPO = os.environ.get("LUMINA_REPO", "/repo")
 
 def make_scratch():
     d = tempfile.mkdtemp(prefix="lumina-scratch-")
-    subprocess.check_call(["rsync", "-a", "--exclude", "/target", REPO + "/", d + "/"])
+    # 24 = "some files vanished while copying" (git bookkeeping files of concurrent worktrees): harmless
+    rc = subprocess.call(["rsync", "-a", "--exclude", "/target", "--exclude", "/.git/worktrees", REPO + "/", d + "/"])
+    if rc not in (0, 24):
+        raise RuntimeError("rsync of %s failed with %d" % (REPO, rc))
     return d
 
 
